@@ -1,5 +1,5 @@
 """C08 — Compressed rotated files are valid gzip of exactly the rotated log."""
-import gzip as pygzip, hashlib, json, os, random, re, resource, shutil, struct, subprocess, tempfile, zlib
+import gzip as pygzip, hashlib, json, os, random, re, resource, shutil, struct, subprocess, tempfile, time, zlib
 from concurrent.futures import ThreadPoolExecutor
 import vlib
 
@@ -124,7 +124,14 @@ def run_case(impl, case):
     d = tempfile.mkdtemp(prefix='c08_', dir='/tmp')
     logdir = os.path.join(d, 'log')
     lines = []
-    if case['mode'] == 'raw':
+    if case['mode'] == 'blocked':
+        # as 'raw', but a DIRECTORY occupies the name the first .gz would get: creating the .gz fails
+        os.makedirs(os.path.join(logdir, 'app.%s.1.log.gz' % time.strftime('%Y-%m-%d')))
+        with open(os.path.join(logdir, 'app.log'), 'wb') as f:
+            f.write(case['raw'])
+        lines += ['W 7a']
+        args = [logdir, '0', str(case.get('N', 0)), '5', 'u']
+    elif case['mode'] == 'raw':
         # the active file exists already, with arbitrary bytes; a sink with RotationOnStartup|Compression takes it over
         os.makedirs(logdir)
         with open(os.path.join(logdir, 'app.log'), 'wb') as f:
@@ -142,7 +149,10 @@ def run_case(impl, case):
     res = {'dir': d, 'rc': rc, 'stderr': err[-300:], 'answers': out, 'files': {}, 'expected': {}}
     if os.path.isdir(logdir):
         for f in sorted(os.listdir(logdir)):
-            res['files'][f] = open(os.path.join(logdir, f), 'rb').read()
+            if os.path.isfile(os.path.join(logdir, f)):
+                res['files'][f] = open(os.path.join(logdir, f), 'rb').read()
+            else:
+                res.setdefault('subdirs', []).append(f)
     if os.path.isdir(logdir + '.exp'):
         for f in sorted(os.listdir(logdir + '.exp')):
             if f != 'pending':
@@ -227,8 +237,11 @@ def make_cases(chk):
         raw += [('urandom', (1 << 20) + 1), ('mixed', 3 * (1 << 20) + 5), ('crlf', (1 << 20) + 1), ('urandom', 2 * 65536), ('urandom', 2 * 65536 + 1)]
     for kind, n in raw:
         cases.append({'mode': 'raw', 'kind': kind, 'size': n, 'rseed': rng.randrange(1 << 30)})
+    # the .gz cannot be created (a directory has its name): the original must survive
+    for kind, n in ([('urandom', 5000), ('crlf', 20000), ('mixed', 70000)] if thorough else [('urandom', 5000), ('crlf', 20000)]):
+        cases.append({'mode': 'blocked', 'kind': kind, 'size': n, 'rseed': rng.randrange(1 << 30)})
     for c in cases:
-        if c['mode'] == 'raw':
+        if c['mode'] in ('raw', 'blocked'):
             c['raw'] = gen_raw(c['kind'], c['size'], c['rseed']); c['records'] = []
         else:
             c['records'] = gen_records(c['kind'], c['size'], c['rseed'])
@@ -239,11 +252,11 @@ def describe(c, with_records=False):
     d = {k: c[k] for k in ('mode', 'size', 'rseed', 'L', 'N') if k in c}
     d['content'] = c['kind']
     if with_records and c['size'] <= 4096:
-        if c['mode'] == 'raw':
+        if c['mode'] in ('raw', 'blocked'):
             d['raw_hex'] = c['raw'].hex()
         else:
             d['records_utf8_hex'] = [r.encode('utf-8').hex() for r in c['records']]
-    d['how'] = ("raw mode: app.log pre-written with checks.c08.gen_raw(content, size, rseed), then a sink with RotationOnStartup|Compression writes 'z'; "
+    d['how'] = ("blocked mode: as raw mode, with a directory named app.<today>.1.log.gz created first; raw mode: app.log pre-written with checks.c08.gen_raw(content, size, rseed), then a sink with RotationOnStartup|Compression writes 'z'; "
                 "records = checks.c08.gen_records(content, size, rseed); startup mode: write them with rotation off, restart the sink with "
                 "RotationOnStartup|Compression, write 'z'; size mode: Compression, max size L")
     return d
@@ -257,6 +270,16 @@ def evaluate_case(c, res, tmp_paths):
         return out
     files, exp = res['files'], res['expected']
     gz = [f for f in files if f.endswith('.gz')]
+    if c['mode'] == 'blocked':
+        # no .gz can be created: the rotated original must stay, with exactly the old content
+        plains = [f for f in files if re.match(r'app\.\d{4}-\d\d-\d\d\.\d+\.log$', f)]
+        held = [f for f in plains if files[f] == c['raw']]
+        if gz:
+            out['bad'].append(('blocked-gz', 'a .gz file appeared although its name is occupied by a directory: %s' % gz))
+        if not held:
+            out['bad'].append(('original-lost', 'creating the .gz failed (its name is a directory) and the rotated original is gone or changed: '
+                               'directory has %s, the %d bytes of the old log are in no file' % (sorted(files) + res.get('subdirs', []), len(c['raw']))))
+        return out
     if c['mode'] in ('startup', 'raw'):
         want = c['raw'] if c['mode'] == 'raw' else content_of(c['records'])
         if len(gz) != 1:
@@ -322,6 +345,68 @@ def qcompress_leg(chk, impl, model, level):
         return n
     finally:
         shutil.rmtree(d, ignore_errors=True)
+
+
+def concurrent_leg(chk, impl, model):
+    """two independent sinks on different files, each confined to its own thread, compress pre-written multi-MiB files at
+    the same time (released together by a barrier): both .gz must carry the CRC/ISIZE of their own file and verify"""
+    rng = chk.rng
+    thorough = chk.tier == 'thorough'
+    rounds, size = (6, 4 << 20) if thorough else (2, 2 << 20)
+    top = tempfile.mkdtemp(prefix='c08c_', dir='/tmp')
+    n = 0
+    try:
+        lines, datas = [], []
+        for r in range(rounds):
+            pair = []
+            for x in 'ab':
+                d = os.path.join(top, 'r%d%s' % (r, x)); os.makedirs(d)
+                rseed = rng.randrange(1 << 30)
+                data = gen_raw('mixed' if r % 2 else 'urandom', size + rng.randint(0, 70000), rseed)
+                open(os.path.join(d, 'app.log'), 'wb').write(data)
+                pair.append(d); datas.append((d, data, rseed, r))
+            lines.append('C %s %s' % tuple(pair))
+        rc, out, err = vlib.run_lines(impl, lines, [os.path.join(top, 'main'), '0', '0', '0', 'u'], timeout=600)
+        if rc != 0 or out.count('C') != rounds:
+            chk.fail('two sinks compressing concurrently: the process failed', {'kind': 'concurrent', 'rc': rc, 'stderr': err[-300:]}, kind='concurrent')
+            return 0
+        mlines = []
+        for d, data, rseed, r in datas:
+            pe = os.path.join(d, 'expected'); open(pe, 'wb').write(data)
+            mlines.append('T @' + pe)
+        half = (len(mlines) + 1) // 2
+        with ThreadPoolExecutor(max_workers=4) as ex:
+            parts = list(ex.map(lambda ls: run_model(model, ls)[1], [mlines[i::4] for i in range(4)]))
+        mo = [None] * len(mlines)
+        for i in range(4):
+            for j, v in enumerate(parts[i]):
+                mo[i + 4 * j] = v
+        reported = False
+        for (d, data, rseed, r), m in zip(datas, mo):
+            n += 1
+            gz = [f for f in os.listdir(d) if f.endswith('.gz')]
+            rep = {'kind': 'concurrent', 'round': r, 'size': len(data), 'rseed': rseed, 'rounds': rounds,
+                   'how': 'h_gzip command "C <dirA> <dirB>": two threads, one RotatingFileSink(RotationOnStartup|Compression) each on its own '
+                          'pre-written app.log (checks.c08.gen_raw), started together; see checks.c08.concurrent_leg'}
+            bad = []
+            if len(gz) != 1:
+                bad.append(('no-gz', 'no .gz produced: %s' % sorted(os.listdir(d))))
+            else:
+                blob = open(os.path.join(d, gz[0]), 'rb').read()
+                facts = py_decode(blob)
+                bad = check_gz(gz[0], blob, data, facts)
+                if not bad and not gzip_cli_ok(os.path.join(d, gz[0])):
+                    bad.append(('gz-invalid', 'gzip -t rejects the file'))
+                t = (m or '').split()
+                rep.update(impl_trailer=facts['trailer'], model_trailer=t[1] if len(t) == 3 else None)
+                if len(t) == 3 and (facts['header'], facts['trailer']) != (t[0], t[1]) and not bad:
+                    bad.append(('gz-trailer', 'trailer %s differs from the model %s' % (facts['trailer'], t[1])))
+            if bad and not reported:
+                reported = True
+                chk.fail('two independent sinks compressing at the same time (round %d, %d bytes): %s' % (r, len(data), bad[0][1]), rep, kind='concurrent')
+        return n
+    finally:
+        shutil.rmtree(top, ignore_errors=True)
 
 
 def os_random(rng, n):
@@ -466,10 +551,11 @@ def run():
             chk.broke('extracted model: cfg_goodb src_gz / removed_lastb src_compress_steps = %s' % model_cfg, {'kind': 'translator-config', 'values': model_cfg})
         n_q = qcompress_leg(chk, impl, model, level)
         n_k = removal_leg(chk, crash)
+        n_c = concurrent_leg(chk, impl, model)
         allg = [g for ev in evals for g in ev['gz']]
         sizes = [g['expected_len'] for g in allg]
         chk.cov.update({
-            'evaluations': n_gz + n_q + n_k, 'gz_files_checked': n_gz, 'oracle_evaluated_on_impl_files': n_oracle,
+            'evaluations': n_gz + n_q + n_k + n_c + sum(1 for c in cases if c['mode'] == 'blocked'), 'concurrent_sink_files': n_c, 'gz_files_checked': n_gz, 'oracle_evaluated_on_impl_files': n_oracle,
             'oracle_falsified': len(falsified), 'disagreements_model_vs_impl': len(disagree),
             'qcompress_framing_samples': n_q, 'kill_at_unlink_runs': n_k,
             'distinct_nontrivial': len({g['sha'] for g in allg if g['expected_len'] >= 2}),
@@ -477,7 +563,7 @@ def run():
                     'replaced file, gzip.decompress, gzip -t, extracted gunzip with that inflate result) + qCompress framing samples + '
                     'kill-before-unlink runs; non-trivial = distinct content of >= 2 bytes',
             'kinds': {k: sum(1 for c in cases if c['kind'] == k) for k in KINDS + RAW_KINDS},
-            'modes': {m: sum(1 for c in cases if c['mode'] == m) for m in ('startup', 'size', 'raw')},
+            'modes': {m: sum(1 for c in cases if c['mode'] == m) for m in ('startup', 'size', 'raw', 'blocked')},
             'size_histogram': {'1': sum(1 for s in sizes if s == 1), '2-8191': sum(1 for s in sizes if 2 <= s < 8192),
                                '8192': sum(1 for s in sizes if s == 8192), '8193-65535': sum(1 for s in sizes if 8192 < s < 65536),
                                '65536': sum(1 for s in sizes if s == 65536), '65537-1MiB': sum(1 for s in sizes if 65536 < s < (1 << 20)),
@@ -507,7 +593,7 @@ def replay(path):
     model = vlib.build_model('gzip'); impl = vlib.build_harness('gzip')
     kind = c['content']
     case = {'mode': c['mode'], 'kind': kind, 'size': c['size'], 'rseed': c['rseed'], 'L': c.get('L', 0), 'N': c.get('N', 0)}
-    if c['mode'] == 'raw':
+    if c['mode'] in ('raw', 'blocked'):
         case['raw'] = bytes.fromhex(r['raw_hex']) if r.get('raw_hex') else gen_raw(kind, c['size'], c['rseed'])
         case['records'] = []
     elif r.get('records_utf8_hex'):
